@@ -4,13 +4,11 @@ import (
 	"math/big"
 
 	"github.com/bitcoin-sv/block-headers-service/config"
-	"github.com/bitcoin-sv/block-headers-service/internal/chaincfg"
-	dbsql "github.com/bitcoin-sv/block-headers-service/database/sql"
 	"github.com/bitcoin-sv/block-headers-service/domains"
+	"github.com/bitcoin-sv/block-headers-service/internal/chaincfg"
 	"github.com/bitcoin-sv/block-headers-service/internal/chaincfg/chainhash"
 	"github.com/bitcoin-sv/block-headers-service/internal/zzverif/hstore"
 	"github.com/bitcoin-sv/block-headers-service/internal/zzverif/vh"
-	"github.com/bitcoin-sv/block-headers-service/internal/zzverif/vhcsv"
 	"github.com/bitcoin-sv/block-headers-service/internal/zzverif/vhdb"
 	"github.com/bitcoin-sv/block-headers-service/service"
 )
@@ -94,179 +92,6 @@ func compareImported(pre []hstore.H, got []hstore.H) {
 	vh.Assert("C17/stale-and-orphan-headers-left-out", len(got) == n)
 }
 
-func export(pre []hstore.H) [][]string {
-	db := hstore.Store(pre)
-	rows, err := queryDatabaseTable(db, vh.Logger())
-	vh.Assert("C17/export-query-succeeds", err == nil)
-	w := vhcsv.NewWriter()
-	vh.Assert("C17/export-writes", writeColumnNamesToCsvFile(rows, w) == nil && writeRowsToCsvFile(rows, w) == nil)
-	return vhcsv.Records(w)
-}
-
-// HarnessRoundTrip (C17): export of an arbitrary store, then the real SQLite import of the
-// produced records into an empty database, reproduces the exported longest chain.
-func HarnessRoundTrip(k int) {
-	pre := c17Store(k)
-	recs := export(pre)
-	vh.Observe("records", len(recs))
-	db2 := vhdb.NewDB()
-	a := &sqLiteAdapter{db: db2}
-	n, err := a.importHeaders(vhcsv.File(recs), vh.Logger())
-	vh.Assert("C17/import-succeeds", err == nil)
-	got, ok := hstore.Load(db2)
-	vh.Assert("C17/imported-rows-wellformed", ok)
-	if !ok {
-		return
-	}
-	vh.Assert("C17/import-count-reported", n == len(got))
-	compareImported(pre, got)
-	vh.Reach("end")
-}
-
-// HarnessBatches (C17): the same records imported batch by batch (batch size 1) through
-// insertHeaders, threading row index, previous hash and cumulative work the way importHeaders
-// does, give the same table: batch boundaries are irrelevant.
-func HarnessBatches(k int) {
-	pre := c17Store(k)
-	recs := export(pre)
-	if len(recs) < 1 {
-		return
-	}
-	db2 := vhdb.NewDB()
-	a := &sqLiteAdapter{db: db2}
-	repo := dbsql.NewHeadersDb(db2, vh.Logger())
-	reader := vhcsv.NewReader(recs[1:]) // the column header line is skipped by importHeaders
-	prevHash := chainhash.Hash{}.String()
-	cum := ""
-	rowIndex, guard := 0, 0
-	for i := 0; i <= k+1; i++ {
-		var err error
-		rowIndex, prevHash, cum, err = a.insertHeaders(reader, repo, 1, prevHash, cum, rowIndex)
-		vh.Assert("C17/batch-import-succeeds", err == nil)
-		if guard == rowIndex {
-			break
-		}
-		guard = rowIndex
-	}
-	got, ok := hstore.Load(db2)
-	vh.Assert("C17/imported-rows-wellformed", ok)
-	if !ok {
-		return
-	}
-	compareImported(pre, got)
-	_ = big.NewInt
-	vh.Reach("end")
-}
-
-// HarnessRealBatches (C17): HarnessRoundTrip with the REAL batch loop of importHeaders crossing
-// batch boundaries: the verification overlay turns the constant sqliteBatchSize (500) into a
-// variable, set to b here, so that k rows span several batches.
-func HarnessRealBatches(k int, b int) {
-	if !setBatchSize(b) {
-		vh.Assume(false) // the declaration was not found in the current source: nothing is claimed
-		return
-	}
-	defer setBatchSize(500)
-	pre := c17Store(k)
-	recs := export(pre)
-	db2 := vhdb.NewDB()
-	a := &sqLiteAdapter{db: db2}
-	n, err := a.importHeaders(vhcsv.File(recs), vh.Logger())
-	vh.Assert("C17/import-succeeds", err == nil)
-	got, ok := hstore.Load(db2)
-	vh.Assert("C17/imported-rows-wellformed", ok)
-	if !ok {
-		return
-	}
-	vh.Assert("C17/import-count-reported", n == len(got))
-	compareImported(pre, got)
-	vh.Reach("end")
-}
-
-// HarnessSecondStart (C17): a start on a database that already holds headers never imports
-// (nothing is overwritten) - and therefore accepts whatever a refused import left behind.
-func HarnessSecondStart(k int) {
-	pre := make([]hstore.H, k)
-	for i := range pre {
-		pre[i] = hstore.NondetH()
-	}
-	// arbitrary leftover rows: distinct hashes is all a table guarantees
-	for i := range pre {
-		vh.Assume(vh.And(pre[i].State <= hstore.O, vh.BigLe(big.NewInt(0), pre[i].W), vh.BigLe(big.NewInt(0), pre[i].CW)))
-		for j := 0; j < i; j++ {
-			vh.Assume(!vh.HashEq(pre[i].Hash, pre[j].Hash))
-		}
-	}
-	db := hstore.Store(pre)
-	// the newest checkpoint of the network: an arbitrary hash at a small height
-	cpHash := vh.NondetHash("checkpoint")
-	config.Checkpoints = []chaincfg.Checkpoint{{Height: int32(vh.Choose(k + 1)), Hash: &cpHash}}
-	consistent := validateDbConsistency(k, dbsql.NewHeadersDb(db, vh.Logger()), db) == nil
-	vh.Observe("consistent", consistent)
-	err := importHeaders(&sqLiteAdapter{db: db}, nil, vh.Logger())
-	post, ok := hstore.Load(db)
-	vh.Assert("C17/existing-headers-never-overwritten", vh.And(ok, len(post) == k))
-	if ok && len(post) == k {
-		for i := range pre {
-			vh.Assert("C17/existing-headers-never-overwritten", vh.And(hstore.SameButState(pre[i], post[i]), pre[i].State == post[i].State))
-		}
-	}
-	vh.Class("F1-leftover-of-a-refused-import-is-accepted-by-the-next-start", !consistent)
-	vh.Assert("C17/start-on-inconsistent-leftover-is-refused", vh.Implies(!consistent, err != nil))
-	vh.Reach("end")
-}
-
-// HarnessRestart (C05): what every start does besides opening the file - inserting the genesis
-// header - leaves a non-empty store exactly as it was (every row, every state), whatever an
-// interrupted ingestion left behind; on an empty store it creates exactly the genesis row.
-func HarnessRestart(k int) {
-	cfg := &config.AppConfig{P2P: &config.P2PConfig{ChainNetType: config.MainNet}}
-	g := createGenesisHeaderBlock(cfg.P2P.GetNetParams().GenesisBlock.Header)
-	gh, gok := hstore.FromRow(g)
-	vh.Assert("C05/genesis-row-wellformed", gok)
-	if !gok {
-		return
-	}
-	pre := make([]hstore.H, k)
-	for i := range pre {
-		if i == 0 {
-			pre[i] = gh
-		} else {
-			pre[i] = hstore.NondetH()
-		}
-	}
-	db := vhdb.NewDB()
-	if k > 0 {
-		// arbitrary rows after genesis: only what the table itself guarantees (distinct hashes)
-		for i := range pre {
-			for j := 0; j < i; j++ {
-				vh.Assume(!vh.HashEq(pre[i].Hash, pre[j].Hash))
-			}
-			vh.Assume(vh.And(pre[i].State <= hstore.O, vh.BigLe(big.NewInt(0), pre[i].W), vh.BigLe(big.NewInt(0), pre[i].CW)))
-			vhdb.InsertHeaderRow(db, pre[i].Row())
-		}
-	}
-	err := insertGenesisBlock(&sqLiteAdapter{db: db}, cfg, vh.Logger())
-	vh.Assert("C05/restart-succeeds", err == nil)
-	post, ok := hstore.Load(db)
-	vh.Assert("C05/rows-wellformed-after-restart", ok)
-	if !ok {
-		return
-	}
-	if k == 0 {
-		vh.Assert("C05/empty-store-gets-exactly-genesis", len(post) == 1 && hstore.SameButState(post[0], gh) && post[0].State == hstore.L && post[0].Height == 0 && vh.BigEq(post[0].CW, post[0].W))
-		vh.Reach("created")
-		return
-	}
-	vh.Assert("C05/restart-changes-nothing", len(post) == k)
-	if len(post) == k {
-		for i := range pre {
-			vh.Assert("C05/restart-changes-nothing", vh.And(hstore.SameButState(pre[i], post[i]), pre[i].State == post[i].State))
-		}
-	}
-	vh.Reach("unchanged")
-}
-
 // HarnessInitRestart (C05): the whole start-up sequence of the service, database.Init, run on a
 // database file that an earlier run (possibly interrupted in the middle of an ingestion) left
 // behind: it succeeds and leaves every row as it was. Whatever a start does - today: connect,
@@ -316,6 +141,54 @@ func HarnessInitRestart(k int) {
 			vh.Assert("C05/restart-changes-nothing", vh.And(hstore.SameButState(pre[i], post[i]), pre[i].State == post[i].State))
 		}
 	}
+	_ = db2.Close()
+	vh.Reach("end")
+}
+
+// HarnessFileRoundTrip (C17): the public entry points end to end. The real ExportHeaders writes
+// the prepared-database file from a store, the real Init (prepared_db = true) of an empty
+// database imports it: the imported table is exactly the exported longest chain. Everything
+// between the two calls is the repository's own code in its current form (query, CSV writing,
+// compression call, decompression call, batch loop, consistency validation); files are record
+// lists in a model file system and gzip is the identity.
+func HarnessFileRoundTrip(k int) {
+	pre := c17Store(k)
+	log := vh.Logger()
+	file := vhdb.TempRelPath(".csv.gz")
+	src := &config.AppConfig{
+		Db:  &config.DbConfig{Engine: config.DBSQLite, SchemaPath: vhdb.MigrationsDir(), SQLite: config.SQLiteConfig{FilePath: vhdb.TempPath()}, PreparedDbFilePath: file},
+		P2P: &config.P2PConfig{ChainNetType: config.MainNet},
+	}
+	a := &sqLiteAdapter{}
+	vh.Assume(a.connect(src.Db) == nil && a.doMigrations(src.Db) == nil)
+	for _, h := range pre {
+		vhdb.InsertHeaderRow(a.db, h.Row())
+	}
+	_ = a.db.Close()
+
+	vh.Assert("C17/export-succeeds", ExportHeaders(src, log) == nil)
+
+	// the newest checkpoint the import validates against: the exported genesis
+	saved := config.Checkpoints
+	defer func() { config.Checkpoints = saved }()
+	g := pre[0].Hash
+	config.Checkpoints = []chaincfg.Checkpoint{{Height: 0, Hash: &g}}
+
+	dst := &config.AppConfig{
+		Db:  &config.DbConfig{Engine: config.DBSQLite, SchemaPath: vhdb.MigrationsDir(), SQLite: config.SQLiteConfig{FilePath: vhdb.TempPath()}, PreparedDb: true, PreparedDbFilePath: file},
+		P2P: &config.P2PConfig{ChainNetType: config.MainNet},
+	}
+	db2, err := Init(dst, log)
+	vh.Assert("C17/import-succeeds", err == nil && db2 != nil)
+	if err != nil || db2 == nil {
+		return
+	}
+	got, ok := hstore.Load(db2)
+	vh.Assert("C17/imported-rows-wellformed", ok)
+	if !ok {
+		return
+	}
+	compareImported(pre, got)
 	_ = db2.Close()
 	vh.Reach("end")
 }
